@@ -317,6 +317,15 @@ def build_go(comp, spec, workdir):
     cmd.append("./cmd/" + spec.get("cmd", comp))
     rc, out = sh(cmd, cwd=HARNESS, env=env, timeout=1200)
     if rc != 0:
+        if spec.get("public_api_fallback"):
+            # the add-only accessors (or the overlay) no longer compile against the tree under test: build the command
+            # WITHOUT the verif tag and without the overlay - its public-API tier (files without the tag) keeps searching
+            # for a failing input; the caller reports the state distinctly (accessor mismatch)
+            cmd2 = ["go", "build", "-modfile", modfile, "-o", binp, "./cmd/" + spec.get("cmd", comp)]
+            rc2, out2 = sh(cmd2, cwd=HARNESS, env=env, timeout=1200)
+            if rc2 == 0:
+                return binp, "ACCESSOR-MISMATCH: built without the verif accessors; the build with them failed:\n" + out[-4000:]
+            out += "\npublic-API fallback build failed too:\n" + out2[-2000:]
         return None, "harness does not build against the current tree:\n" + out[-4000:]
     return binp, log
 
@@ -397,6 +406,7 @@ class CompResult:
         self.xcheck = None
         self.xcheck_n = 0
         self.wall = 0.0
+        self.accessor_mismatch = None   # build log when the component runs its public-API tier only (see build_go)
 
 
 def run_component(comp, spec, tier, seed, workdir, extra_args=None, n_xcheck=25):
@@ -416,6 +426,8 @@ def run_component(comp, spec, tier, seed, workdir, extra_args=None, n_xcheck=25)
         r.wall = time.time() - t0
         r.broken = "harness-build"
         return r
+    if glog.startswith("ACCESSOR-MISMATCH"):
+        r.accessor_mismatch = glog
     cases = os.path.join(workdir, "cases_%s.txt" % comp)
     report = os.path.join(workdir, "report_%s.json" % comp)
     for p in (cases, report):
